@@ -22,7 +22,7 @@ from vf.props.common import harness_error, inconclusive, proved, violation
 ID = "C04"
 LEVEL = "model_checking"
 ITEM_BUDGET_S = {"quick": 300, "thorough": 1200}
-QT = {"quick": 10000, "thorough": 60000}
+QT = {"quick": 10000, "thorough": 30000}
 _TIER = "quick"
 MAXD = 8
 
@@ -210,6 +210,34 @@ def touched_traversals(e):
     return out
 
 
+def updated_traversals(b, e, val, tag="[upd]"):
+    """every question asked once (caches warm), the parameters updated to p', the questions asked again"""
+    import optyx.analysis as A
+    qs = (("compute_degree", lambda: A.compute_degree(e), lambda d: d), ("e.degree", lambda: e.degree, lambda d: d),
+          ("is_linear", lambda: A.is_linear(e), lambda b_: 1 if b_ else None), ("e.is_linear()", lambda: e.is_linear(), lambda b_: 1 if b_ else None),
+          ("is_quadratic", lambda: A.is_quadratic(e), lambda b_: 2 if b_ else None),
+          ("_compute_degree_iterative", lambda: A._compute_degree_iterative(e), lambda d: d), ("_compute_degree_impl", lambda: A._compute_degree_impl(e), lambda d: d))
+    for _n, fn, _c in qs:
+        try:
+            fn()
+        except Exception:  # noqa: BLE001
+            pass
+    for n, p_ in b.params.items():
+        p_.set(val[n + "'"])
+    out = {}
+    for name, fn, conv in qs:
+        try:
+            out[name + tag] = conv(fn())
+        except RecursionError:
+            out[name + tag] = None
+        except Exception as ex:  # noqa: BLE001
+            out[name + tag] = ex
+    return out
+
+
+UPD_INITIAL = (0.0, 1.0, 2.0, 3.0)   # concrete initial parameter values (the code's own tests on exponents / coefficients)
+
+
 def fd_terms(recipe, names, val, hval, d):
     """reference values f(x + k h), k = 0..d+1, and the domain conditions"""
     vals = []
@@ -237,8 +265,9 @@ def check_recipe(recipe, planted=None):
     from vf.engine.sym import SReal
     res = []
     names = free_names(recipe)
-    allv = names["vars"] + names["syms"] + names["params"]
+    allv = names["vars"] + names["syms"] + names["params"] + [n + "'" for n in names["params"]]
     val = K.sym_val(allv)
+    val1 = {**val, **{n: val[n + "'"] for n in names["params"]}}
     hval = {n: SReal.var("h_" + n) for n in names["vars"]}
     hnames = ["h_" + n for n in names["vars"]]
     shp = K.shape(recipe, 3)
@@ -246,6 +275,12 @@ def check_recipe(recipe, planted=None):
         t = traversals(K.build_recipe(recipe, val)[1])
         t.update(warm_traversals(K.build_recipe(recipe, val)[1]))   # a fresh tree, inner nodes queried first
         t.update(touched_traversals(K.build_recipe(recipe, val)[1]))
+        if names["params"]:
+            t.update(updated_traversals(*K.build_recipe(recipe, val), val))
+            # the same with CONCRETE initial parameter values (a symbolic value is not a numbers.Number for the code)
+            for p0 in UPD_INITIAL:
+                vc = {**val, **{n: p0 for n in names["params"]}}
+                t.update(updated_traversals(*K.build_recipe(recipe, vc), val, tag=f"[upd from p={p0}]"))
         return t
 
     for dec, labels, pc, trav in K.explore(both, max_paths=50):
@@ -263,8 +298,9 @@ def check_recipe(recipe, planted=None):
                 res.append(inconclusive(f"reported degree {d} > {MAXD}: {show(recipe)[:80]}"))
                 continue
             dd = max(d, -1)
-            if dd in done:
-                r0 = done[dd]
+            upd = "[upd" in name
+            if (dd, upd) in done:
+                r0 = done[(dd, upd)]
                 if r0["status"] == "violation":
                     r = dict(r0)
                     r["what"] = f"{name} reports degree {d} for {show(recipe)[:100]} (not a polynomial of degree <= {d})"
@@ -276,14 +312,14 @@ def check_recipe(recipe, planted=None):
                 else:
                     res.append(dict(r0, what=f"unknown: {name} reports degree {d} for {show(recipe)[:80]}"))
                 continue
-            vals, dom = fd_terms(recipe, names, val, hval, dd)
+            vals, dom = fd_terms(recipe, names, val1 if upd else val, hval, dd)
             D = fd(vals, dd)
             what = f"{name} reports degree {d} for {show(recipe)[:100]}"
             r = K.decide(smt.eq(D, 0.0), pc, dom, what, f"C04|{name.split('(')[0]}|d={d}|{shp}",
                          dict(kind="fd", obs=name, d=d, recipe=K.enc(recipe)), allv + hnames, QT[_TIER], weak_sat=True)
             if r["status"] == "violation":
                 r["what"] = what + f" (not a polynomial of degree <= {d})"
-            done[dd] = r
+            done[(dd, upd)] = r
             res.append(r)
     return res
 
@@ -308,12 +344,20 @@ def replay(payload):
     recipe = K.dec(payload["recipe"])
     name, d = payload["obs"], int(payload["d"])
     names = free_names(recipe)
-    allv = names["vars"] + names["syms"] + names["params"]
-    # the real code must still make the claim
-    val = {n: 0.5 for n in allv}
+    allv = names["vars"] + names["syms"] + names["params"] + [n + "'" for n in names["params"]]
+    upd = "[upd" in name
+    vals0 = payload.get("values", {})
+    base0 = {k: float(__import__("fractions").Fraction(v)) for k, v in vals0.items()}
+    # the real code must still make the claim (for the parameter values of the counterexample)
+    val = {n: (base0.get(n, 0.5) if n.rstrip("'") in names["params"] else 0.5) for n in allv}
     trav = traversals(K.build_recipe(recipe, val)[1])
     trav.update(warm_traversals(K.build_recipe(recipe, val)[1]))
     trav.update(touched_traversals(K.build_recipe(recipe, val)[1]))
+    if names["params"]:
+        trav.update(updated_traversals(*K.build_recipe(recipe, val), val))
+        for p0 in UPD_INITIAL:
+            vc = {**val, **{n: p0 for n in names["params"]}}
+            trav.update(updated_traversals(*K.build_recipe(recipe, vc), val, tag=f"[upd from p={p0}]"))
     got = trav.get(name)
     if isinstance(got, Exception) or got is None or int(got) != d:
         return False, f"{name} now reports {got!r}, not {d}"
@@ -325,8 +369,10 @@ def replay(payload):
         base = {k: float(__import__("fractions").Fraction(v)) for k, v in vals0.items()}
         pts.append(({n: base.get(n, 0.0) for n in allv}, {n: base.get("h_" + n, 0.0) for n in names["vars"]}))
     for _ in range(30):
-        pts.append(({n: rng.uniform(0.4, 1.6) for n in allv}, {n: rng.uniform(0.05, 0.3) for n in names["vars"]}))
+        pts.append(({n: (val[n] if n.rstrip("'") in names["params"] else rng.uniform(0.4, 1.6)) for n in allv}, {n: rng.uniform(0.05, 0.3) for n in names["vars"]}))
     for x, h in pts:
+        if upd:
+            x = {**x, **{n: x[n + "'"] for n in names["params"]}}
         try:
             with np.errstate(all="ignore"):
                 vals, dom = fd_terms(recipe, names, x, h, dd)
